@@ -71,7 +71,7 @@ fn control_objects(r: &mut Rng, max_items: usize) -> Vec<u8> {
 }
 
 fn read_headers(r: &mut Rng) -> Vec<u8> {
-    let table: [&[u8]; 22] = [
+    let table: [&[u8]; 31] = [
         &[0x3c, 0x01, 0x06],
         &[0x3c, 0x02, 0x06],
         &[0x3c, 0x03, 0x06],
@@ -94,6 +94,15 @@ fn read_headers(r: &mut Rng) -> Vec<u8> {
         &[0x20, 0x00, 0x06],
         &[0x20, 0x01, 0x07, 0x01],
         &[0x20, 0x00, 0x07, 0x05],
+        &[0x01, 0x01, 0x06],
+        &[0x01, 0x01, 0x00, 0x00, 0x30],
+        &[0x01, 0x01, 0x01, 0x03, 0x00, 0x2c, 0x01],
+        &[0x1e, 0x02, 0x06],
+        &[0x1e, 0x03, 0x06],
+        &[0x1e, 0x04, 0x00, 0x00, 0x20],
+        &[0x1e, 0x05, 0x06],
+        &[0x1e, 0x06, 0x06],
+        &[0x1e, 0x01, 0x01, 0x00, 0x00, 0x40, 0x00],
     ];
     let n = match r.below(10) {
         0..=5 => 1,
@@ -193,6 +202,19 @@ impl<'a> G<'a> {
                 f.push(1);
                 f.extend(read_headers(&mut self.r));
                 note = Some("@wf".into());
+                if self.r.chance(1, 10) {
+                    // parses, but is not supported in a READ request: must be flagged
+                    let h: &[u8] = *self.r.pick(&[&[0x50u8, 0x01, 0x06][..], &[0x50, 0x01, 0x00, 0x00, 0x07]]);
+                    if self.r.chance(1, 2) {
+                        f.extend_from_slice(h);
+                    } else {
+                        let mut g = vec![f[0], 1];
+                        g.extend_from_slice(h);
+                        g.extend_from_slice(&f[2..]);
+                        f = g;
+                    }
+                    note = Some("@wf @reject".into());
+                }
             }
             10..=13 => {
                 // SELECT (remembered so that a matching OPERATE can follow)
@@ -446,6 +468,17 @@ pub fn gen(thorough: bool, seed: u64, w: &mut dyn Write, gc: GenCfg) {
             cfg_keepalive: ka, gc: GenCfg { with_db }, next_time: 1000, points: Vec::new(),
         };
         g.seq = g.r.below(16) as u8;
+        if g.gc.with_db && g.r.chance(1, 4) {
+            // a database large enough for multi-fragment static responses
+            let n = *g.r.pick(&[40u16, 60, 100, 300]);
+            let is_bin = g.r.chance(1, 2);
+            let start = *g.r.pick(&[0u16, 0, 5, 250]);
+            let class = g.r.below(4);
+            g.line(&format!("addmany {} {} {} {}", if is_bin { "bin" } else { "an" }, start, n, class));
+            for i in 0..n.min(12) {
+                g.points.push((is_bin, start + i * (n / 12).max(1)));
+            }
+        }
         if g.gc.with_db {
             let np = g.r.range(0, 6);
             for _ in 0..np {
